@@ -192,6 +192,8 @@ static Crystal_Struct *gen_many(unsigned seed, unsigned i) {
 
 static int run_history(const char *hist_path, const char *files_dir);
 
+#include <errno.h>
+static void xv_poison_errno(void) { static unsigned k; static const int v[4] = {ERANGE, EDOM, ENOMEM, 0}; errno = v[k++ & 3]; }   /* see harness/cdrv.c */
 int main(int argc, char **argv) {
   if (argc < 3) return 2;
   if (argc > 3 && !strcmp(argv[3], "dump")) { dump_builtin(); return 0; }
@@ -223,6 +225,7 @@ static int run_history(const char *hist_path, const char *files_dir) {
   f = fopen(argv[1], "r"); if (!f) return 2;
   base_live = live_blocks; base_fds = open_fds();
   while (fgets(line, sizeof line, f)) {
+    xv_poison_errno();
     int nt = 0; xrl_error *e = NULL; char *p;
     for (p = strtok(line, " \n"); p && nt < (1 << 16); p = strtok(NULL, " \n")) tok[nt++] = p;
     if (nt == 0 || tok[0][0] == '#') continue;
